@@ -58,6 +58,12 @@ def r_dataclass(mod, rep, R='R13.1'):
                     or (isinstance(s, ast.Assign) and any(isinstance(t, ast.Name) and t.id == '__hash__' for t in s.targets))]
         rep.check(not explicit, R, w, name + ':no-setattr', '%s defines no __setattr__/__delattr__/__hash__ = ... of its own' % name,
                   '%s overrides %s' % (name, [getattr(s, 'name', '__hash__') for s in explicit]))
+        rewriters = [s.name for s in cls.body if isinstance(s, ast.FunctionDef) and s.name in ('__post_init__', '__new__')
+                     and any((isinstance(c_, ast.Call) and src(c_.func) in ('object.__setattr__', 'setattr', 'super().__setattr__'))
+                             or (isinstance(c_, ast.Attribute) and isinstance(c_.ctx, ast.Store) and isinstance(c_.value, ast.Name) and c_.value.id == 'self')
+                             for c_ in ast.walk(s))]
+        rep.check(not rewriters, R, w, name + ':fields-as-given', '%s keeps the field values it is constructed with' % name,
+                  '%s.%s stores other values into its fields than those given: a value read from a text prints as another text' % (name, rewriters[0] if rewriters else ''))
         hs = [s for s in cls.body if isinstance(s, ast.FunctionDef) and s.name == '__hash__']
         if hs:
             # a hand-written hash is fine iff it depends only on fields that equality compares
@@ -83,7 +89,13 @@ def r_eq(mod, rep, R='R13.2'):
     for name, base in CLASSES.items():
         cls = mod.get(name)
         fields = dataclass_fields(cls)
-        fn = mod.get(name + '.__eq__')
+        fn = mod.get(name + '.__eq__', required=False)
+        if fn is None:
+            # no __eq__ of its own: the dataclass generates the field-wise one, which has no branch for a text -- the value no
+            # longer equals its own canonical text (erasing a feature by name, `cat == "NP"`, the tables keyed by texts)
+            rep.check(False, R, '%s:%s %s' % (REL, cls.lineno, name), name + ':__eq__', '',
+                      '%s has no __eq__ of its own: the generated one compares fields only, so a value is no longer equal to its canonical text' % name)
+            continue
         w = '%s:%s %s.__eq__' % (REL, fn.lineno, name)
         o = fn.args.args[1].arg
         is_str = bf.T(('call', N('isinstance'), (N(o), N('str')), ()))
